@@ -182,6 +182,20 @@ def finalize(ctx, explanation, not_decided, extra_assumptions=(), selftest=None,
         lines.append('rule=%s instances=%d discharged=%d  # %s' % (r.id, r.n, disc, r.statement))
         for note in r.notes:
             lines.append('  note: %s' % note)
+    # unreviewed helpers that the normalisation pass could not inline: a difference found in the same file is not
+    # "definite" (the construct may have moved into the helper), so it is reported as an analysis-error instead
+    unreviewed_files = {}
+    for q in getattr(idx0 := ctx.index, 'unreviewed', []) or []:
+        fi = idx0.funcs.get(q)
+        if fi is not None:
+            unreviewed_files.setdefault(fi.module.relpath, []).append(q.rsplit('.', 1)[-1])
+    for o in ctx.obligations():
+        if o.status == VIOLATION and unreviewed_files:
+            f = (o.loc or '').split(':')[0]
+            if f in unreviewed_files:
+                o.status = UNDECIDED
+                o.detail = 'not definite because unreviewed helper(s) %s in %s could not be inlined: %s' % (
+                    ', '.join(sorted(set(unreviewed_files[f]))[:4]), f, o.detail)
     for o in ctx.obligations():
         if o.status == VIOLATION:
             if o.key in known_keys:
